@@ -252,27 +252,45 @@ func main() {
 		return ok
 	}
 
-	// NewSche: chanTask: make(chan *RunTask, QueueSize)
+	// the task channel: every `make(chan *RunTask, <cap>)` of the package (whatever the field that holds it is
+	// called, wherever the constructor puts it) must use the constant QueueSize as its capacity, and there
+	// must be at least one.  (Formerly keyed on the field name `chanTask` inside NewSche: a harmless rename
+	// of that unexported field was reported as a broken obligation - false alarm C15-indh-h9, repaired.)
 	capIsQS := false
-	if fd := funcs["NewSche"]; fd != nil {
-		ast.Inspect(fd, func(n ast.Node) bool {
-			kv, ok := n.(*ast.KeyValueExpr)
+	capOther := false
+	isRunTaskChan := func(e ast.Expr) bool {
+		ct, ok := e.(*ast.ChanType)
+		if !ok {
+			return false
+		}
+		t := ct.Value
+		if st, ok := t.(*ast.StarExpr); ok {
+			t = st.X
+		}
+		id, ok := t.(*ast.Ident)
+		return ok && id.Name == "RunTask"
+	}
+	for _, f := range files {
+		ast.Inspect(f, func(n ast.Node) bool {
+			c, ok := n.(*ast.CallExpr)
 			if !ok {
 				return true
 			}
-			if k, ok := kv.Key.(*ast.Ident); !ok || k.Name != "chanTask" {
+			id, ok := c.Fun.(*ast.Ident)
+			if !ok || id.Name != "make" || len(c.Args) < 1 || !isRunTaskChan(c.Args[0]) {
 				return true
 			}
-			if c, ok := kv.Value.(*ast.CallExpr); ok {
-				if id, ok := c.Fun.(*ast.Ident); ok && id.Name == "make" && len(c.Args) == 2 {
-					if a, ok := c.Args[1].(*ast.Ident); ok && a.Name == "QueueSize" {
-						capIsQS = true
-					}
+			if len(c.Args) == 2 {
+				if a, ok := c.Args[1].(*ast.Ident); ok && a.Name == "QueueSize" {
+					capIsQS = true
+					return true
 				}
 			}
+			capOther = true // unbuffered, or another capacity
 			return true
 		})
 	}
+	capIsQS = capIsQS && !capOther
 
 	b2 := func(b bool) string {
 		if b {
@@ -295,7 +313,7 @@ func main() {
 	sb.WriteString("def selfBlockDefendAssigned : Bool := " + b2(assigned) + "\n\n")
 	sb.WriteString("/-- the constant `QueueSize` -/\n")
 	sb.WriteString("def queueSize : Nat := " + strconv.Itoa(queueSize) + "\n\n")
-	sb.WriteString("/-- `NewSche` creates `chanTask` with capacity `QueueSize` -/\n")
+	sb.WriteString("/-- every `make(chan *RunTask, n)` of the package has n = `QueueSize` (and there is one) -/\n")
 	sb.WriteString("def chanCapIsQueueSize : Bool := " + b2(capIsQS) + "\n\n")
 	sb.WriteString("/-- `(*Sche).doTask` (or `DoTask`, which wraps it) defers a function that calls `recover()` -/\n")
 	sb.WriteString("def doTaskRecovers : Bool := " + b2(defersRecover("Sche.doTask") || defersRecover("Sche.DoTask")) + "\n\n")
